@@ -50,10 +50,13 @@ def main():
     # known findings: reported, never violations
     known = known_findings(prop)
     viols = []
+    printed = set()
     for v in res["violations"]:
         k = next((k for k in known if k.get("status") == "known" and families.matches_known(k, v)), None)
         if k:
-            print("KNOWN-FINDING: property=%s %s" % (prop, k["what"]))
+            if id(k) not in printed:
+                printed.add(id(k))
+                print("KNOWN-FINDING: property=%s %s" % (prop, k["what"]))
         else:
             viols.append(v)
     n = 0
